@@ -133,6 +133,7 @@ Lemma mcall_nonset_scs K m c :
   (forall o s, c <> Set_ o s) -> (forall o s, c <> SetAct o s) -> snd (mcall K m c) = [].
 Proof.
   intros N N'. destruct c; cbn [mcall]; try (exfalso; eapply N; reflexivity); try (exfalso; eapply N'; reflexivity);
+    try (destruct (iter_next K m g); reflexivity); try (destruct (proc_iter K m); reflexivity);
     repeat match goal with
            | |- context [match ?e with _ => _ end] => destruct e
            end; reflexivity.
@@ -237,7 +238,7 @@ Lemma pid0_refused h o s :
   /\ effects_of (run h) (EC (Set_ o s)) = [].
 Proof.
   intros W H P0 [sig Es].
-  assert (V : valid_args 0 s = false) by (destruct s; cbn in Es |- *; try discriminate; reflexivity).
+  assert (V : valid_args 0 s = false) by (destruct s; cbn [intended valid_args] in Es |- *; try discriminate; reflexivity).
   destruct (set_answer (run h) o s (run_inv h W) H) as (Sa & So & Sn). cbn zeta in *. rewrite P0, V in *.
   destruct (alive (run h) (g_inc (run h) o)) eqn:A.
   - destruct (Sa eq_refl) as [-> ->]. auto.
@@ -512,7 +513,7 @@ Lemma step_meets_spec h c : wf_hist h = true ->
   end.
 Proof.
   intros W. pose proof (run_inv h W) as I.
-  destruct c as [pid|pid|o|o s|o|o|o|o|o|a b|a b|o s|o|o| |]; cbn [spec_call]; auto.
+  destruct c as [pid|pid|o|o s|o|o|o|o|o|a b|a b|o s|o|o| | |o| |g]; cbn [spec_call]; auto.
   - (* New *)
     rewrite nonset_effects by (intros; discriminate). left. f_equal.
     rewrite outcome_call. cbn [mcall]. unfold new_obj.
